@@ -10,8 +10,7 @@ EXPL = ("C06 has two halves. (1) Round trip, the statement's own quantifier: eng
         "reference parser (exact rational arithmetic; nearest 8-bit value, ties counted) - thorough tier: complete; quick tier: a 52^3 lattice + greys + channel "
         "sweeps + pseudo-random sample (bounded, labelled). (2) Format mapping: engine A proves on the real ASTs that format_color implements the documented "
         "table (hex / rgb() / hsl() / tuple itself / hex for everything else) and that make_readable returns format_color(judged colour, input's format tag) on "
-        "all three outcome paths; the tag assigned to each input spelling (detect_color_format) is checked by engine E over enumerated members of every "
-        "documented input class (bounded).")
+        "all three outcome paths; the tag assigned to each input class is proved by z3 string-theory dispatch lemmas over detect_color_format's decision list extracted from its real AST (named, #hex, bare hex, rgb(), rgba(), hsl(), hsla(); strip/lower image assumed) and by engine A for 3-/4-element tuples and lists; engine E re-checks enumerated members (bounded).")
 
 
 def detect_cases(rng):
@@ -65,6 +64,22 @@ def run(args):
         C('make_readable re-formats only on success', '                if c.is_valid:\n                    formatted_color', '                if c.is_valid and success:\n                    formatted_color', 'ColorPair.make_readable', 'format_kept', mod=COL),
     ]
     run_A(ck, [f'{CP}:format_color#table', f'{COL}:ColorPair.make_readable'], canaries, prog)
+    # ---- input-class tags: z3 string-theory dispatch lemmas over the decision list extracted from the real AST; tuples/lists by engine A
+    from vf import strdispatch as sd
+    from vf.engine_a import verify_many
+    import ast as _ast
+    t0 = time.time()
+    try:
+        fn, _m = prog.func(f'{CP}:detect_color_format')
+        table = _ast.literal_eval(prog.modules['cm_colors.core.named_colors'].consts['CSS_NAMED_COLORS'])
+        dres = sd.lemmas(fn, list(table), {'named': "'named'", 'hex-with-hash': "'hex'", 'hex-bare': "'hex'", 'hsl()': "'hsl'", 'hsla()': "'hsla'", 'rgb()': "'rgb'", 'rgba()': "'rgba'"})
+    except (sd.Unsupported, KeyError, ValueError, SyntaxError) as e:
+        dres = [('dispatch[detect_color_format]', None, f'decision list could not be extracted: {e}')]
+    for name, ok, detail in dres:
+        ck.add_obligation('A', f'detect_color_format/{name}', 'discharged' if ok else ('unknown' if ok is None else 'failed'), 'z3/cvc5-strings', (time.time() - t0) / max(1, len(dres)), detail)
+        if ok is False: ck.violation(f'detect_color_format/{name}', 'A', {'detail': detail})
+        elif ok is None: ck.undecide(f'detect_color_format/{name}', str(detail)[:200])
+    ck.absorb_A(verify_many([(f'{CP}:detect_color_format', None)], variant='c14'))
     roundtrip_lemma(ck, args.tier, FORMATS)
     # ---- engine E: tag of every input class; output kind of make_readable across spellings x outcomes
     rng = random.Random(args.seed + 6)
